@@ -554,6 +554,9 @@ class URL:
 
         ret.scheme = scheme
         ret.host = host
+        if host and ':' in host:
+            # only an IPv6 literal has colons; to_text() brackets it
+            ret.family = socket.AF_INET6
         ret.path_parts = tuple(path_parts) or ('',)
         ret.query_params.update(query_params)
         ret.fragment = fragment
